@@ -15,6 +15,9 @@ SRC = {  # id -> (worktree, n)
     "C04-1": ("/tmp/wt2-C04", 1), "C04-2": ("/tmp/wt2-C04", 2), "C07-1": ("/tmp/wt2-C07", 1), "C07-2": ("/tmp/wt2-C07", 2),
     "C08-1": ("/tmp/wt2-C08", 1), "C08-2": ("/tmp/wt2-C08", 2), "C14-1": ("/tmp/wt2-C14", 1), "C14-2": ("/tmp/wt2-C14", 2),
     "C17-1": ("/tmp/wt2-C17", 1), "C17-2": ("/tmp/wt2-C17", 2),
+    # third round (told which first-round mechanisms to avoid)
+    "C09-4": ("/tmp/wt3-C09", 1), "C09-5": ("/tmp/wt3-C09", 2), "C06-3": ("/tmp/wt3-C06", 1), "C06-4": ("/tmp/wt3-C06", 2),
+    "C02-2": ("/tmp/wt3-C02", 1), "C02-3": ("/tmp/wt3-C02", 2), "C03-4": ("/tmp/wt3-C03", 1), "C03-5": ("/tmp/wt3-C03", 2),
 }
 RESULTS = json.load(open(os.path.join(os.path.dirname(__file__), "seed_results.json")))
 
